@@ -21,6 +21,7 @@ type Outcome struct {
 	PanicV  Value
 	Env     map[string]Value // top frame only: source-level variables at return
 	EnvAddr map[string]bool
+	CallRes map[string][]Value
 }
 
 type deferred struct {
@@ -71,6 +72,7 @@ type Frame struct {
 	unwinding bool
 	nopanic  bool
 	results  []Value // named results at Recover
+	callRes  map[string][]Value // results of contract-applied calls, key "<callee>#<n>"
 }
 
 func (fr *Frame) clone() *Frame {
@@ -92,6 +94,10 @@ func (fr *Frame) clone() *Frame {
 	n.calls = make(map[string]int, len(fr.calls))
 	for k, v := range fr.calls {
 		n.calls[k] = v
+	}
+	n.callRes = make(map[string][]Value, len(fr.callRes))
+	for k, v := range fr.callRes {
+		n.callRes[k] = v
 	}
 	return &n
 }
@@ -161,7 +167,7 @@ func (fr *Frame) get(st *State, v ssa.Value) Value {
 		return Func{Name: "builtin:" + x.Name()}
 	}
 	if r, ok := fr.regs[v]; ok {
-		return r
+		return st.canon(r)
 	}
 	fail("%s: no value for %s (%T)", fr.fn, v.Name(), v)
 	return nil
@@ -593,6 +599,7 @@ func (fr *Frame) exec(st *State, b *ssa.BasicBlock, idx int) {
 		if st.dead {
 			return
 		}
+		curBounds = st.bnd
 		in := b.Instrs[i]
 		switch x := in.(type) {
 		case *ssa.Call:
@@ -737,6 +744,7 @@ func (fr *Frame) finish(st *State, res []Value) {
 		for k, v := range fr.envAddr {
 			o.EnvAddr[k] = v
 		}
+		o.CallRes = fr.callRes
 	}
 	*fr.out = append(*fr.out, o)
 	if len(*fr.out) > maxPaths {
